@@ -80,3 +80,62 @@ example : wfAccesses Props.C05.exApp Props.C05.exState 80 = true ∧
   decide +kernel
 
 end Props.C09
+
+/-! ## C09 on the multi-core variants, at the level of the MSI protocol (work package COH)
+
+When no core holds a line Modified any more — in particular after the end-of-run write-back of every Modified line
+(`cc.writeBack()`, a snoop write-back in the model) — the next level holds the value of the last completed write to that
+line: nothing older than the return is lost in an L1.  (What the next level of MVP-8 then does with it — L3 and memory —
+is `Props.C06.l3_final_memory_is_next_level`.) -/
+
+namespace Props.C09
+open Model.Msi Proofs.Msi Proofs.MsiCoherence
+
+variable {D : Type}
+
+/-- **(d)** with no Modified holder the next level IS the current value … -/
+theorem Msi.mem_is_cur (σ : Model.Msi.State D) (l : Model.Msi.Line) (hM : ∀ c, σ.st c l ≠ .M) :
+    σ.mem l = Proofs.MsiCoherence.cur σ l :=
+  (cur_of_noM (fun c _ => hM c)).symm
+
+/-- … hence **after the write-back of every Modified line memory holds the last completed write of every line** -/
+theorem Msi.final_memory_is_last_write (n : Nat) (mem : Model.Msi.Line → D) (as : List (Action D))
+    (hs : SafeRun (Model.Msi.init n mem) as) (l : Model.Msi.Line)
+    (hM : ∀ c, (Model.Msi.run (Model.Msi.init n mem) as).st c l ≠ .M) :
+    (Model.Msi.run (Model.Msi.init n mem) as).mem l = lastWrite mem (writesOf (Model.Msi.init n mem) as) l :=
+  Proofs.MsiCoherence.final_memory_is_last_write n mem as hs l hM
+
+/-- the write-back itself (a snoop of kind `writeBack` on the Modified holder) moves the value to the next level without
+changing it, and afterwards nobody holds the line Modified -/
+theorem Msi.writeback_moves_value (σ : Model.Msi.State D) (h : Inv σ) (e : Core) (l : Model.Msi.Line)
+    (hc : σ.cmd e l .writeBack = true) :
+    (Model.Msi.step σ (.snoop e l .writeBack)).mem l = Proofs.MsiCoherence.cur σ l ∧
+    ∀ c, (Model.Msi.step σ (.snoop e l .writeBack)).st c l ≠ .M := by
+  have hi' := inv_step σ (.snoop e l .writeBack) h (Or.inl rfl)
+  have hM : σ.st e l = .M := (h.cmdState e l).2 hc
+  have hnoM : ∀ c, (Model.Msi.step σ (.snoop e l .writeBack)).st c l ≠ .M := by
+    intro c hMc
+    have hst : (Model.Msi.step σ (.snoop e l .writeBack)).st = upd2 σ.st e l .I := by
+      obtain ⟨d, hd⟩ : ∃ d, σ.l1 e l = some d := by
+        have := h.holdsOfState e l (by rw [hM]; simp)
+        cases hh : σ.l1 e l with
+        | none => exact absurd hh this
+        | some d => exact ⟨d, rfl⟩
+      unfold Model.Msi.step Model.Msi.snoop
+      simp only [h.noPanic, Bool.false_eq_true, if_false, hc, if_true, hd]
+    rw [hst] at hMc
+    by_cases he : c = e
+    · subst he; rw [upd2_same] at hMc; cases hMc
+    · rw [upd2_other _ _ (fun hh => he hh.1)] at hMc
+      have := h.single e c l hM he
+      rw [this] at hMc; cases hMc
+  refine ⟨?_, hnoM⟩
+  rw [Msi.mem_is_cur _ l hnoM, cur_step h (.snoop e l .writeBack) (Or.inl rfl)]
+  rfl
+
+/-- Non-vacuity: at the end of the history of `Props.C05.Msi` (writes 11 then 22 to line 7; both Modified copies were
+written back by snoops) no core holds line 7 Modified and the next level holds 22 -/
+example : ((Props.C05.Msi.cohAt 16).st 0 7 == .M, (Props.C05.Msi.cohAt 16).st 1 7 == .M, (Props.C05.Msi.cohAt 16).mem 7) =
+    (false, false, 22) := by decide
+
+end Props.C09
